@@ -34,10 +34,14 @@ type c16case struct {
 	per     time.Duration
 	timeout string // application scans: --timeout value, to tell it apart from the exit delay
 	badLine bool   // targets come from a file whose second line is a bad entry: a non-fatal error is logged before the scan is done
+	// slowOut: standard output is a pipe to a slow reader: the first write delivers half of its bytes,
+	// then blocks that long, then delivers the rest. The record of a reply that came within the delay
+	// must be complete when the command returns (it returns later than the delay then, not earlier)
+	slowOut time.Duration
 }
 
 func (k c16case) String() string {
-	return fmt.Sprintf("%s probes=%d exit-delay=%q(%v) rate=%q reply-latency=%v timeout=%q bad-line=%v", k.cmd.name, k.n, k.delay, k.dval, k.rate, k.latency, k.timeout, k.badLine)
+	return fmt.Sprintf("%s probes=%d exit-delay=%q(%v) rate=%q reply-latency=%v timeout=%q bad-line=%v slow-stdout=%v", k.cmd.name, k.n, k.delay, k.dval, k.rate, k.latency, k.timeout, k.badLine, k.slowOut)
 }
 
 type c16obs struct {
@@ -97,6 +101,22 @@ func c16build(k c16case) (*vE2ESpec, *c16obs) {
 		sc.Positive = func(string, uint16) bool { return true }
 	}
 	sc.Horizon = 5000000
+	if k.slowOut > 0 {
+		world, so := sc.World, k.slowOut
+		sc.World = func(w *zzvenv.World) {
+			if world != nil {
+				world(w)
+			} else {
+				vDefaultWorld(w)
+			}
+			w.SlowStdout = func(n int, p []byte) (int, time.Duration) {
+				if n == 0 {
+					return len(p) / 2, so
+				}
+				return len(p), 0
+			}
+		}
+	}
 	if k.cmd.kind != "app" && k.latency >= 0 && k.n > 0 {
 		frames := make([][]byte, len(ob.chunks))
 		for i := range ob.chunks {
@@ -160,7 +180,7 @@ func c16check(k c16case, run *vE2ERun, x *vs.Exec, ob *c16obs) (class, msg strin
 		if run.RetT < last+d {
 			return "early-exit", fmt.Sprintf("the command returned at %v, %v after its last probe (at %v): the exit delay is %v", time.Duration(run.RetT), time.Duration(run.RetT-last), time.Duration(last), k.dval)
 		}
-		if run.RetT > last+d {
+		if run.RetT > last+d && !(k.slowOut > 0 && run.RetT <= last+int64(k.slowOut)) {
 			return "late-exit", fmt.Sprintf("the command returned at %v, %v after its last probe (at %v): the exit delay %v was over long before", time.Duration(run.RetT), time.Duration(run.RetT-last), time.Duration(last), k.dval)
 		}
 		if len(lines) != k.n {
@@ -190,7 +210,7 @@ func c16check(k c16case, run *vE2ERun, x *vs.Exec, ob *c16obs) (class, msg strin
 		if end < last+d {
 			return "early-exit", fmt.Sprintf("%s at %v, only %v after the last probe of chunk %d (at %v): the exit delay is %v", what, time.Duration(end), time.Duration(end-last), i+1, time.Duration(last), k.dval)
 		}
-		if end > last+d {
+		if end > last+d && !(k.slowOut > 0 && len(ob.injAt) > i && ob.injAt[i] >= 0 && end <= ob.injAt[i]+int64(k.slowOut)) {
 			return "late-exit", fmt.Sprintf("%s at %v, %v after the last probe of chunk %d (at %v): the exit delay %v was over before", what, time.Duration(end), time.Duration(end-last), i+1, time.Duration(last), k.dval)
 		}
 	}
@@ -306,6 +326,16 @@ func verifC16(c *drv.Ctx) {
 							continue
 						}
 						runCase(c16case{cmd: cmd, delay: d.flag, dval: d.val, latency: lat, n: n, rate: rate.text, per: rate.per})
+					}
+				}
+			}
+			if d.val >= 77*time.Millisecond && d.val <= 300*time.Millisecond && (c.Thorough() || di == 3) {
+				// a slow reader on stdout: the write of the record outlasts the rest of the window
+				if cmd.kind == "app" {
+					runCase(c16case{cmd: cmd, delay: d.flag, dval: d.val, latency: -1, n: 1, slowOut: 2 * d.val})
+				} else {
+					for _, lat := range []time.Duration{d.val / 2, d.val - 1} {
+						runCase(c16case{cmd: cmd, delay: d.flag, dval: d.val, latency: lat, n: 1, slowOut: d.val})
 					}
 				}
 			}
